@@ -23,6 +23,7 @@ import (
 	"sync"
 	"sync/atomic"
 	"testing"
+	"unicode/utf8"
 
 	"github.com/google/martian/v3"
 	"github.com/google/martian/v3/api"
@@ -273,7 +274,28 @@ func flattenErr(err error) []string {
 		}
 		return out
 	}
-	return []string{err.Error()}
+	return []string{asReported(err.Error())}
+}
+
+// asReported is a failure text as a JSON document can carry it: JSON strings
+// are Unicode, so each byte that is not part of valid UTF-8 arrives as U+FFFD
+// (what encoding/json writes); everything else - control characters, quotes,
+// backslashes, U+2028, astral characters - must arrive unchanged.
+func asReported(s string) string {
+	if utf8.ValidString(s) {
+		return s
+	}
+	var sb strings.Builder
+	for i := 0; i < len(s); {
+		r, n := utf8.DecodeRuneInString(s[i:])
+		if r == utf8.RuneError && n == 1 {
+			sb.WriteRune(utf8.RuneError)
+		} else {
+			sb.WriteString(s[i : i+n])
+		}
+		i += n
+	}
+	return sb.String()
 }
 
 // isolated feeds the message to a fresh instance of the leaf (outside any tree,
@@ -751,6 +773,9 @@ func classes(c Case) []string {
 		if f := apiForm(&c.Ops[i]); f != "" {
 			cl = appendOnce(cl, "api-mark:"+f)
 		}
+		if c.Ops[i].K == "X" && hasOddContent(c.Ops[i].Req, c.Ops[i].Res) {
+			cl = appendOnce(cl, "odd-bytes-in-message")
+		}
 		if c.Ops[i].K == "X" && hasBadQuery(c.Ops[i].Req) {
 			cl = appendOnce(cl, "unparsable-query")
 			if s.kinds["querystring"] {
@@ -928,6 +953,66 @@ func hasBadQuery(rq *tr.Req) bool {
 	return err != nil
 }
 
+// oddContent puts content into the exchange that a failure text will carry:
+// bytes that are not UTF-8, control bytes, DEL, quotes and backslashes,
+// U+2028, astral characters - as a query value, a request header value or a
+// response header value (the first nvals header values only).
+func oddContent(t *rapid.T, rq *tr.Req, rs *tr.Res, nvals int) {
+	switch uni(t, "oddwhere", 3) {
+	case 0:
+		pair := pick(t, "oddpair", tr.OddQueryPairs)
+		if rq.Query == "" || uni(t, "oddalone", 2) == 0 {
+			rq.Query = pair
+		} else {
+			rq.Query += "&" + pair
+		}
+	case 1:
+		rq.Header[pick(t, "oddname", []string{"X-A", "X-B"})] = []string{tr.OddHeaderValues[uni(t, "oddval", nvals)]}
+	default:
+		if rs != nil {
+			rs.Header[pick(t, "oddname", []string{"X-A", "X-B"})] = []string{tr.OddHeaderValues[uni(t, "oddval", nvals)]}
+		}
+	}
+}
+
+func hasOddContent(rq *tr.Req, rs *tr.Res) bool {
+	odd := func(s string) bool {
+		if !utf8.ValidString(s) {
+			return true
+		}
+		for _, r := range s {
+			if r < 0x20 || r == 0x7f || r == '"' || r == '\\' || r == 0x2028 || r > 0xffff {
+				return true
+			}
+		}
+		return false
+	}
+	if q, err := url.ParseQuery(rq.Query); err == nil {
+		for _, vs := range q {
+			for _, v := range vs {
+				if odd(v) {
+					return true
+				}
+			}
+		}
+	}
+	for _, h := range []map[string][]string{rq.Header, func() map[string][]string {
+		if rs == nil {
+			return nil
+		}
+		return rs.Header
+	}()} {
+		for _, vs := range h {
+			for _, v := range vs {
+				if odd(v) {
+					return true
+				}
+			}
+		}
+	}
+	return false
+}
+
 func genExchange(t *rapid.T, badQueryOK bool) Op {
 	rq, rs := tr.GenPairOpt(t, false)
 	if badQueryOK && uni(t, "badquery", 5) == 0 {
@@ -941,6 +1026,9 @@ func genExchange(t *rapid.T, badQueryOK bool) Op {
 		default:
 			rq.Query += "&" + bad
 		}
+	}
+	if uni(t, "odd", 4) == 0 {
+		oddContent(t, &rq, &rs, len(tr.OddHeaderValues))
 	}
 	if uni(t, "portedhost", 5) == 0 {
 		// authority with a port, bracketed IPv6 literal with and without one
@@ -992,7 +1080,7 @@ var propSequential = &kit.Prop[Case]{
 	Gates: map[string]float64{
 		"verifier-in-else": 0.15, "response-verifier-in-else": 0.05, "resets>=2": 0.30, "has-api-request": 0.40,
 		"unmet-recorded": 0.40, "unmet-then-reset": 0.25, "api-request-would-be-unmet": 0.20, "unmet-in-else-branch": 0.08,
-		"unparsable-query-with-querystring-verifier": 0.10, "verifier-under-url-regex-filter": 0.05, "skip-roundtrip-and-status-verifier": 0.02, "api-mark:direct": 0.15, "api-mark:url-virtual-host": 0.25, "api-mark:url-already-forwarder-target": 0.25, "api-mark:url-names-target-in-other-spelling": 0.25,
+		"unparsable-query-with-querystring-verifier": 0.10, "odd-bytes-in-message": 0.5, "odd-bytes-in-recorded-failure": 0.15, "verifier-under-url-regex-filter": 0.05, "skip-roundtrip-and-status-verifier": 0.02, "api-mark:direct": 0.15, "api-mark:url-virtual-host": 0.25, "api-mark:url-already-forwarder-target": 0.25, "api-mark:url-names-target-in-other-spelling": 0.25,
 	},
 }
 
